@@ -70,8 +70,13 @@ unsigned int get_rex_prefix(struct instr *all_instr, struct operand *m,
   all_instr->hex.is_w0 = true;
   if ((m->reg & MODE_MASK) < reg64)
     all_instr->hex.is_w0 = false;
-  if ((m->reg & MODE_MASK) == mmx64 || (r->reg & MODE_MASK) == mmx64)
-    return get_vector_rex_prefix(all_instr, m->reg, r->reg);
+  if ((m->reg & MODE_MASK) == mmx64 || (r->reg & MODE_MASK) == mmx64) {
+    unsigned int vector_prefix = get_vector_rex_prefix(all_instr, m->reg, r->reg);
+    // an index register r8-r15 needs REX.X (VEX.X) like in the scalar case
+    if (m->index & REG_RB)
+      vector_prefix |= rex_ | rex_x;
+    return vector_prefix;
+  }
   if (all_instr->keyword.is_keyword)
     overide_opd_size(all_instr, &rm);
   else if (!(rm & reg_none) && !(rm & MODE_MASK) && rm >= spl)
